@@ -29,7 +29,6 @@ type c04iSched struct {
 	Prior string `json:"prior"`
 	Put   bool   `json:"put"`
 	Rm    bool   `json:"rm"`
-	Fix7  bool   `json:"fix7"` // validation run against a tree with fixes/F7.diff applied
 	Steps string `json:"steps"`
 }
 
@@ -288,7 +287,7 @@ func TestVerifC04I(t *testing.T) {
 				stray++
 			}
 		}
-		term := fmt.Sprintf("{| r_prior := %s; r_put := %s; r_rm := %s; r_fix7 := "+gBool(sc.Fix7)+";\n   r_sched := %s;\n   r_sync := %s; r_a_ok := %s; r_b_ok := %s; r_path := %s; r_trash := %s; r_stray := %d |}",
+		term := fmt.Sprintf("{| r_prior := %s; r_put := %s; r_rm := %s;\n   r_sched := %s;\n   r_sync := %s; r_a_ok := %s; r_b_ok := %s; r_path := %s; r_trash := %s; r_stray := %d |}",
 			sc.Prior, gBool(sc.Put), gBool(sc.Rm), gList(executed), gBool(c.sync), gBool(c.code[0]/100 == 2), gBool(c.code[1] == 200),
 			gpath, gList(gtrash), stray)
 		a := "TOUCH"
